@@ -69,12 +69,16 @@ def dump_mir(force=False):
     with open(tmp, "w") as f:
         p = subprocess.run(cmd, cwd=ov, env=env, stdout=f, stderr=subprocess.PIPE, text=True)
     if p.returncode != 0 or os.path.getsize(tmp) < 100000:
+        try:
+            os.remove(tmp)
+        except OSError:
+            pass
         raise RuntimeError("MIR dump failed: " + p.stderr[-2000:])
     os.replace(tmp, out)
-    # keep only the three newest dumps
+    # keep only the eight newest dumps
     dumps = sorted((os.path.getmtime(os.path.join(MIR_DIR, f)), f)
                    for f in os.listdir(MIR_DIR) if f.startswith("lib-") and f.endswith(".mir"))
-    for _, f in dumps[:-3]:
+    for _, f in dumps[:-8]:
         os.remove(os.path.join(MIR_DIR, f))
     return out, tree_hash, time.time() - t0
 
